@@ -98,11 +98,11 @@ class ThermochemIncomplete(ThermochemBase):
 
     def has_ND_H(self):
         """Return True if correlation has |eq_ND_H_T| data."""
-        return bool(self.ND_H_ref)
+        return self.ND_H_ref is not None
 
     def has_ND_S(self):
         """Return True if correlation has |eq_ND_S_T| data."""
-        return bool(self.ND_S_ref)
+        return self.ND_S_ref is not None
 
     def del_ND_Cp(self, T=None):
         """Delete |eq_ND_Cp_T| data (possibly at `T` only).
